@@ -5,5 +5,5 @@ Require Extraction.
 Require Import ExtrOcamlBasic.
 From HV Require Import HtmlSer.SerModel HtmlSer.SerSpec.
 Extraction Language OCaml.
-Extraction "Extract/htmlser_model.ml" SerModel.ser_bytes SerModel.ser_calls SerModel.write_escaped_impl
+Extraction "Extract/htmlser_model.ml" SerModel.ser_bytes SerModel.ser_deque_bytes SerModel.ser_calls SerModel.write_escaped_impl
   SerModel.as_is SerModel.repaired SerSpec.escape_spec SerSpec.unescape.
